@@ -99,3 +99,73 @@ OBLIGATIONS['C03'] += [
        bounds='PIN <= 16 bytes; one session')]
 META['C03'] = dict(outside='more than 4 simultaneously open sessions; the cryptographic PIN check itself (C04); C_InitPIN/C_SetPIN (C04); Slot::initToken body (C14)',
                    assumptions=['INV (harness/C03/login_ind.cpp): not both SO and user logged in; SO logged in => no RO session on the token; somebody logged in => the token has a session; session table entry i has internal handle i+1 - proved inductive by the same obligations'])
+
+# ----------------------------------------------------------------------------- C13
+PAD_REAL = ['SoftHSM.cpp', 'data_mgr/ByteString.cpp']
+OBLIGATIONS['C13'] = []
+for blk in (8, 16):
+    for (op, n, d) in [(0, 'pad_unpad', 'RFC5652Pad output is PKCS#7 and RFC5652Unpad(RFC5652Pad(x)) == x'),
+                       (1, 'unpad_any', 'RFC5652Unpad accepts exactly the PKCS#7-valid buffers (reference from RFC 5652), strips exactly the padding, never indexes out of range')]:
+        OBLIGATIONS['C13'].append(Ob('%s_b%d' % (n, blk), 'C13/pad_leaf.cpp', PAD_REAL, defines={'OP': op, 'BLK': blk, 'BS_CAP': 3 * blk + 2}, unwind=3 * blk + 4, caps='C13/caps.h',
+                                     desc=d + ' (block size %d)' % blk, bounds='every input of 0..%d bytes' % (2 * blk + 1 if op == 0 else 3 * blk), throw_assert=True))
+OBLIGATIONS['C13'] += [
+    Ob('rfc3394pad', 'C13/pad_leaf.cpp', PAD_REAL, defines={'OP': 2, 'BLK': 8, 'BS_CAP': 26}, unwind=28, caps='C13/caps.h', desc='RFC3394Pad = zero padding to the next multiple of 8, data preserved', bounds='every input of 0..17 bytes', throw_assert=True),
+    Ob('odd_parity', 'C13/pad_leaf.cpp', PAD_REAL, defines={'OP': 3, 'BLK': 8, 'BS_CAP': 8}, unwind=10, caps='C13/caps.h', desc='odd_parity[] (DES key parity adjustment): all 256 entries have odd parity and keep the upper 7 bits', bounds='all 256 table entries')]
+META['C13'] = dict(outside='conformance of the primitives (AES-KW RFC 3394/5649, RSA-OAEP, CBC) to an independent implementation; inputs longer than the stated bounds', assumptions=[])
+
+# ----------------------------------------------------------------------------- C05
+FILE_REAL = ['object_store/File.cpp', 'data_mgr/ByteString.cpp', 'object_store/OSAttribute.cpp']
+OBLIGATIONS['C05'] = [
+    Ob('bytestring_ulong', 'C05/file_codec.cpp', FILE_REAL, defines={'OP': 0, 'BS_CAP': 16, 'FCAP': 48}, unwind=18, caps='C05/caps.h', throw_assert=True,
+       desc='ByteString(unsigned long) is the 8-byte big-endian encoding and long_val() inverts it', bounds='all 2^64 values'),
+] + [
+    Ob('file_format_pin_n%d_m%d' % (nb, hm), 'C05/file_codec.cpp', FILE_REAL, defines={'OP': 1, 'BS_CAP': 16, 'FCAP': 48, 'NBYTES': nb, 'HASMECH': hm}, unwind=18, caps='C05/caps.h', throw_assert=True,
+       unwind_rules=[(r'^harness\.', 50)],
+       desc='File::writeULong/writeBool/writeByteString/writeMechanismTypeSet produce exactly the documented bytes (reference encoder) and the read calls return the written values', bounds='byte string of %d bytes, mechanism set of %d element(s); contents symbolic' % (nb, hm))
+    for (nb, hm) in ((0, 0), (3, 1), (6, 1))
+] + [
+    Ob('attrmap_%s' % name, 'C05/file_codec.cpp', FILE_REAL, tiers=(), defines={'OP': 2, 'BS_CAP': 16, 'FCAP': 64, 'CNT': cnt, 'K0': k0, 'K1': k1, 'BL': bl}, unwind=18, caps='C05/caps.h', throw_assert=True,
+       unwind_rules=[(r'^harness\.', 82)],
+       desc='nested attribute map (CKA_WRAP_TEMPLATE style): writeAttributeMap produces exactly the documented bytes, readAttributeMap returns the same map and consumes exactly the written bytes; shape: %s' % name,
+       bounds='%d entries, kinds (%d,%d) [0 bool,1 ulong,2 bytes,3 mechanism set], byte strings of %d bytes; keys and values symbolic' % (cnt, k0, k1, bl))
+    for (name, cnt, k0, k1, bl) in (('empty', 0, 0, 0, 0), ('bool', 1, 0, 0, 0), ('bytes3', 1, 2, 0, 3), ('ulong_bytes2', 2, 1, 2, 2), ('bytes0_bool', 2, 2, 0, 0), ('bool_mech', 2, 0, 3, 0), ('bytes4_bytes4', 2, 2, 2, 4))
+]
+META['C05'] = dict(outside='SQLite backend; files larger than the bounds; directory index; real file-system semantics beyond the model of harness/common/vio_model.h', assumptions=['model file system / stdio of harness/common/vio_model.h'])
+
+# ----------------------------------------------------------------------------- C02 / C08 / C06 (attribute policy engine)
+P11_REAL = ['P11Objects.cpp', 'P11Attributes.cpp', 'slot_mgr/Token.cpp', 'data_mgr/SecureDataManager.cpp', 'handle_mgr/HandleManager.cpp', 'handle_mgr/Handle.cpp',
+            'data_mgr/ByteString.cpp', 'object_store/OSAttribute.cpp', 'session_mgr/Session.cpp', 'crypto/SymmetricAlgorithm.cpp', 'crypto/AsymmetricAlgorithm.cpp',
+            'crypto/MacAlgorithm.cpp', 'crypto/HashAlgorithm.cpp', 'crypto/SymmetricKey.cpp']
+TAG_STUBS = {'_ZN5Token7decryptERK10ByteStringRS0_': 'tag_token_decrypt', '_ZN5Token7encryptERK10ByteStringRS0_': 'tag_token_encrypt'}
+ATTR_REAL = ['P11Attributes.cpp', 'slot_mgr/Token.cpp', 'data_mgr/SecureDataManager.cpp', 'handle_mgr/HandleManager.cpp', 'handle_mgr/Handle.cpp',
+             'data_mgr/ByteString.cpp', 'object_store/OSAttribute.cpp', 'session_mgr/Session.cpp', 'crypto/SymmetricAlgorithm.cpp', 'crypto/AsymmetricAlgorithm.cpp',
+             'crypto/MacAlgorithm.cpp', 'crypto/HashAlgorithm.cpp', 'crypto/SymmetricKey.cpp', 'crypto/AESKey.cpp', 'crypto/DESKey.cpp']
+CK = dict(ck1=1, ck4=8, ck6=0x20, ck7=0x40)
+_SECRET_CK = CK['ck1'] | CK['ck4'] | CK['ck6'] | CK['ck7']
+ATTR_UNITS = [  # (name, constructor expression, attribute type, is secret-key/private-key composition, needs RSA slots)
+    ('value_secret', 'new P11AttrValue(&o, %d)' % _SECRET_CK, 'CKA_VALUE', 1, 0),
+    ('private_exponent', 'new P11AttrPrivateExponent(&o)', 'CKA_PRIVATE_EXPONENT', 1, 1), ('prime1', 'new P11AttrPrime1(&o)', 'CKA_PRIME_1', 1, 1),
+    ('prime2', 'new P11AttrPrime2(&o)', 'CKA_PRIME_2', 1, 1), ('exponent1', 'new P11AttrExponent1(&o)', 'CKA_EXPONENT_1', 1, 1),
+    ('exponent2', 'new P11AttrExponent2(&o)', 'CKA_EXPONENT_2', 1, 1), ('coefficient', 'new P11AttrCoefficient(&o)', 'CKA_COEFFICIENT', 1, 1),
+    ('sensitive', 'new P11AttrSensitive(&o)', 'CKA_SENSITIVE', 0, 0), ('extractable', 'new P11AttrExtractable(&o)', 'CKA_EXTRACTABLE', 0, 0),
+    ('wrap_with_trusted', 'new P11AttrWrapWithTrusted(&o)', 'CKA_WRAP_WITH_TRUSTED', 0, 0), ('trusted', 'new P11AttrTrusted(&o)', 'CKA_TRUSTED', 0, 0),
+    ('local', 'new P11AttrLocal(&o)', 'CKA_LOCAL', 0, 0), ('key_gen_mechanism', 'new P11AttrKeyGenMechanism(&o)', 'CKA_KEY_GEN_MECHANISM', 0, 0),
+    ('always_sensitive', 'new P11AttrAlwaysSensitive(&o)', 'CKA_ALWAYS_SENSITIVE', 0, 0), ('never_extractable', 'new P11AttrNeverExtractable(&o)', 'CKA_NEVER_EXTRACTABLE', 0, 0),
+    ('modifiable', 'new P11AttrModifiable(&o)', 'CKA_MODIFIABLE', 0, 0), ('copyable', 'new P11AttrCopyable(&o)', 'CKA_COPYABLE', 0, 0),
+    ('destroyable', 'new P11AttrDestroyable(&o)', 'CKA_DESTROYABLE', 0, 0), ('private', 'new P11AttrPrivate(&o)', 'CKA_PRIVATE', 0, 0),
+    ('token', 'new P11AttrToken(&o)', 'CKA_TOKEN', 0, 0), ('label', 'new P11AttrLabel(&o)', 'CKA_LABEL', 0, 0)]
+def _attr(name, ctor, atype, secret, rsa, op):
+    d = {'OP': op, 'ATTR_NEW': ctor, 'ATYPE': atype, 'SECRET_CLASS': secret, 'BS_CAP': 10, 'MODEL_OUT_MAX': 4, 'BYTES_ATTR': 1 if (secret or name == 'label') else 0}
+    if rsa: d['SYMOBJ_RSA'] = 1
+    return Ob('attr_%s_%s' % (name, 'retrieve' if op == 0 else 'update'), 'C02/attr_unit.cpp', ATTR_REAL, defines=d, unwind=18, stubs=TAG_STUBS, caps='common/entry_caps.h',
+              desc='%s::%s (real P11Attributes.cpp) on a symbolic object: %s' % (ctor.split('(')[0][4:], 'retrieve' if op == 0 else 'update + updateAttr',
+                   'reveal guard (ck7): sensitive or unextractable => CKR_ATTRIBUTE_SENSITIVE, length unavailable, buffer untouched, no decryption; never more bytes than announced' if op == 0 else
+                   'one-way flags, read-only / history attributes, CKA_TRUSTED only by the SO, canonical booleans, private byte strings stored encrypted, refused update stores nothing'),
+              bounds='value <= 8 bytes, NULL/non-NULL pointer, operation kind symbolic (copy/create/derive/generate/set/unwrap), stored values <= 3 bytes')
+_secret_units = [u for u in ATTR_UNITS if u[3]]
+OBLIGATIONS['C02'] = [_attr(*u, 0) for u in _secret_units] + [_attr(*u, 1) for u in ATTR_UNITS if u[0] in ('sensitive', 'extractable', 'wrap_with_trusted', 'value_secret')]
+OBLIGATIONS['C08'] = [_attr(*u, 1) for u in ATTR_UNITS if not u[3] or u[0] == 'value_secret']
+OBLIGATIONS['C06'] = [_attr(*u, 1) for u in ATTR_UNITS if u[0] in ('value_secret', 'label', 'private_exponent', 'prime1')]
+META['C08'] = dict(outside='attribute composition of every class (which class registers which attribute with which footnote flags) beyond the compositions instantiated here; templates (order effects) are covered by saveTemplate obligation of C09', assumptions=['tagging model of Token::encrypt/decrypt'])
+META['C06'] = dict(outside='that AES-CBC / the PBE really hide the plaintext; SQLite backend; file permission bits are obligation file_mode when present', assumptions=['tagging model of Token::encrypt/decrypt: encrypt(x) = TAG||x'])
+META['C02'] = dict(outside='global non-interference over all output buffers of all calls (we prove the per-call refusal); derive-mechanism inheritance of the flags is obligation derive_* when present', assumptions=['tagging model of Token::encrypt/decrypt'])
